@@ -12,7 +12,7 @@ import driver
 ENGINE = "gen_deep"
 
 RULE = ("programs = `const K: T = <konst call>;` on inputs built from 100..=2000 repetitions of a unit (pattern, digit, delimiter, "
-        "equal prefix) around a core, for the functions of the property (C04 find family, C05 strip / trim family, C06 split via "
+        "equal prefix) around a core, for the functions of the property (C07 chars / char_indices and C08 slice iterators via collect_const!, C13 / C14 Parser operations, C04 find family, C05 strip / trim family, C06 split via "
         "collect_const!, C12 integer parsing of zero-padded numerals, C16 string / byte comparison, C20 str_concat! / str_join! of "
         "hundreds of pieces); oracle = the std expression on the same constants evaluated at run time; a program whose constant "
         "fails to evaluate (E0080: frame limit, overflow, failed assertion) while its std twin compiles is a violation; "
@@ -95,6 +95,42 @@ def rows(prop, rng, tier):
             out.append(("bool", d, "konst::eq_str(A, A)", "A == A", k))
             out.append(("core::cmp::Ordering", d, "konst::const_cmp!(A, B)", "A.cmp(B)", k))
             out.append(("core::cmp::Ordering", d, "konst::slice::cmp_bytes(A.as_bytes(), %s.as_bytes())" % lit("é" * k), "A.as_bytes().cmp(%s.as_bytes())" % lit("é" * k), k))
+    elif prop == "C07":
+        pool = ["a", "é", "个", "😀", "\u0600", "\u0800"]
+        for k in reps[:7]:
+            s_ = "".join(pool[(i * 7 + i // 3) % len(pool)] for i in range(k))
+            d = "const S: &str = %s;" % lit(s_)
+            out.append(("&[char]", d, "&konst::iter::collect_const!(char => konst::string::chars(S))", "S.chars().collect::<Vec<char>>()", k))
+            out.append(("&[char]", d, "&konst::iter::collect_const!(char => konst::string::chars(S), rev())", "S.chars().rev().collect::<Vec<char>>()", k))
+            out.append(("&[(usize, char)]", d, "&konst::iter::collect_const!((usize, char) => konst::string::char_indices(S))", "S.char_indices().collect::<Vec<(usize, char)>>()", k))
+            out.append(("&[(usize, char)]", d, "&konst::iter::collect_const!((usize, char) => konst::string::char_indices(S), rev())", "S.char_indices().rev().collect::<Vec<(usize, char)>>()", k))
+    elif prop == "C08":
+        for k in reps[:7]:
+            arr = "[%s]" % ", ".join(str((i * 37) % 251) for i in range(k))
+            d = "const A: &[u8] = &%s;" % arr
+            for it, std in (("windows(A, 3)", "A.windows(3)"), ("chunks(A, 7)", "A.chunks(7)"), ("rchunks(A, 7)", "A.rchunks(7)"), ("chunks_exact(A, 5)", "A.chunks_exact(5)"), ("rchunks_exact(A, 5)", "A.rchunks_exact(5)")):
+                out.append(("&[(usize, u8)]", d, "&konst::iter::collect_const!((usize, u8) => konst::slice::%s, map(|w| (w.len(), w[0])))" % it, "%s.map(|w| (w.len(), w[0])).collect::<Vec<(usize, u8)>>()" % std, k))
+                out.append(("&[(usize, u8)]", d, "&konst::iter::collect_const!((usize, u8) => konst::slice::%s, rev(), map(|w| (w.len(), w[0])))" % it, "%s.rev().map(|w| (w.len(), w[0])).collect::<Vec<(usize, u8)>>()" % std, k))
+            out.append(("&[u8]", d, "&konst::iter::collect_const!(u8 => konst::slice::iter_copied(A), rev())", "A.iter().copied().rev().collect::<Vec<u8>>()", k))
+    elif prop in ("C13", "C14"):
+        for k in reps:
+            for unit, pat in (("-", "\"-\""), ("ab", "\"ab\""), ("é", "'é'")):
+                s_ = unit * k + "core;7" + unit * k
+                d = "const S: &str = %s;" % lit(s_)
+                n = len(unit.encode()) * k
+                if prop == "C13":
+                    out.append(("(usize, usize)", d, "{ let p = konst::Parser::new(S).trim_start_matches(%s); (p.start_offset(), p.end_offset()) }" % pat, "(%d, S.len())" % n, k))
+                    out.append(("(usize, usize)", d, "{ let p = konst::Parser::new(S).trim_end_matches(%s); (p.start_offset(), p.end_offset()) }" % pat, "(0, S.len() - %d)" % n, k))
+                    out.append(("(usize, usize)", d, "{ let p = konst::Parser::with_start_offset(S, 1000).trim_matches(%s); (p.start_offset(), p.end_offset()) }" % pat, "(1000 + %d, 1000 + S.len() - %d)" % (n, n), k))
+                    out.append(("(usize, usize)", d, "{ let p = konst::Parser::new(S).skip(%d).skip_back(%d); (p.start_offset(), p.end_offset()) }" % (n, n), "(%d, S.len() - %d)" % (n, n), k))
+                    out.append(("usize", d, "match konst::Parser::new(S).find_skip(\";\") { Ok(p) => p.start_offset(), Err(_) => usize::MAX }", "S.find(';').unwrap() + 1", k))
+                    out.append(("usize", d, "match konst::Parser::new(S).strip_prefix(\"zz\") { Ok(_) => usize::MAX, Err(e) => e.offset() }", "0", k))
+                else:
+                    out.append(("&str", d, "konst::Parser::new(S).trim_start_matches(%s).remainder()" % pat, "S.trim_start_matches(%s)" % pat, k))
+                    out.append(("&str", d, "konst::Parser::new(S).trim_end_matches(%s).remainder()" % pat, "S.trim_end_matches(%s)" % pat, k))
+                    out.append(("&str", d, "konst::Parser::new(S).skip(%d).skip_back(%d).remainder()" % (n, n), "\"core;7\"", k))
+                    out.append(("&str", d, "match konst::Parser::new(S).rfind_skip(\";\") { Ok(p) => p.remainder(), Err(_) => \"<err>\" }", "&S[..S.rfind(';').unwrap()]", k))
+                    out.append(("(&str, &str)", d, "match konst::Parser::new(S).split(\";\") { Ok((piece, p)) => (piece, p.remainder()), Err(_) => (\"<err>\", \"\") }", "S.split_once(';').unwrap()", k))
     elif prop == "C20":
         for k in reps[:7]:
             out.append(("&str", "const N: usize = %d;" % k, "konst::string::str_concat!(&[\"ab\"; N])", "[\"ab\"; N].concat()", k))
